@@ -296,7 +296,7 @@ def random_polygon(rng, num, center=(0, 0), size=10.0, family=None, cw=False):
 # ----------------------------------------------------------------------------------
 
 
-def blob_segments(rng, nseg, degree, center, rmin, rmax, mixed=False):
+def blob_segments(rng, nseg, degree, center, rmin, rmax, mixed=False, coincident=False):
     """Closed chain of Bezier segments, star-shaped about center by construction:
     every control polygon is angularly monotone inside its own sector (< 180 degrees),
     so by variation diminishing each ray from the center meets the curve once."""
@@ -327,6 +327,9 @@ def blob_segments(rng, nseg, degree, center, rmin, rmax, mixed=False):
             r = rng.uniform(0.9, 1.25) * max(radii[i], radii[i + 1])
             pts.append(at(ang, r))
         pts.append(junctions[i + 1])
+        if coincident and deg == 3 and rng.random() < 0.6:
+            # a cubic with a double inner control point: two distinct objects with equal value
+            pts[2] = pts[1]
         segs.append(pts)
     return segs
 
@@ -342,12 +345,17 @@ def ctrl_spec(segs, num="float", cw=False):
     return {"t": "ctrl", "num": num, "segs": out}
 
 
-def random_blob(rng, center=(0, 0), size=10.0, degree=None, cw=False, mixed=None):
+def random_blob(rng, center=(0, 0), size=10.0, degree=None, cw=False, mixed=None, num="float"):
     degree = degree or rng.choice([2, 2, 3])
     mixed = rng.random() < 0.2 if mixed is None else mixed
     nseg = rng.randint(3, 7)
-    segs = blob_segments(rng, nseg, degree, center, 0.55 * size, size, mixed)
-    return ctrl_spec(segs, "float", cw), {"family": "blob", "degree": degree, "mixed": mixed, "n": nseg}
+    coincident = rng.random() < 0.2
+    segs = blob_segments(rng, nseg, degree, center, 0.55 * size, size, mixed, coincident)
+    if num != "float":
+        # rational control points on a grid (junctions stay shared because equal floats round equally)
+        grid = max(8, int(math.ceil(64 / size)))
+        segs = [[(Fr(round(x * grid), grid), Fr(round(y * grid), grid)) for x, y in seg] for seg in segs]
+    return ctrl_spec(segs, num, cw), {"family": "blob", "degree": degree, "mixed": mixed, "n": nseg, "coincident": coincident}
 
 
 def random_circle(rng, center=(0, 0), size=10.0, cw=False):
